@@ -18,7 +18,7 @@ type DataSpec struct {
 	Lit  []byte `json:"lit,omitempty"`
 }
 
-var DataKinds = []string{"rand", "alpha", "text", "runs", "periodic", "copies", "fib", "allbytes", "zeros", "edge4k", "edge32k", "logcopies", "head_run", "mixed"}
+var DataKinds = []string{"rand", "alpha", "text", "runs", "periodic", "copies", "fib", "allbytes", "zeros", "edge4k", "edge32k", "logcopies", "head_run", "geo", "mixed"}
 
 var words = []string{"the ", "of ", "and ", "compress", "ion ", "window ", "deflate ", "block ", "huffman ", "a ", "to ", "in ", "stream", "\n", "0123456789", "   ", "ing ", "tion", "er ", "Intel ", "fastgo "}
 
@@ -86,13 +86,14 @@ func (d DataSpec) Bytes() []byte {
 				b = append(b, r.Bytes(1+r.Intn(40))...)
 			}
 		}
-	case "fib": // exact Fibonacci symbol counts (shuffled): forces code lengths beyond 15 bits
+	case "fib": // symbol counts 1,2,3,5,8,... (shuffled): forces code lengths beyond 15 bits (from 16 symbols on; with
+		// fastgo's code-length generator the series 1,1,2,3,... does NOT: its lengths stay near half the optimal depth)
 		k := d.P1
 		if k < 2 {
 			k = 30
 		}
 		// largest k' <= k whose counts fit in n
-		a, c, sum, kk := 1, 1, 0, 0
+		a, c, sum, kk := 1, 2, 0, 0
 		for kk < k && sum+a <= n {
 			sum += a
 			a, c = c, a+c
@@ -101,7 +102,7 @@ func (d DataSpec) Bytes() []byte {
 		if kk < 2 {
 			kk = 2
 		}
-		a, c = 1, 1
+		a, c = 1, 2
 		for i := 0; i < kk && len(b) < n; i++ {
 			for j := 0; j < a && len(b) < n; j++ {
 				b = append(b, byte(i*7+3))
@@ -110,6 +111,69 @@ func (d DataSpec) Bytes() []byte {
 		}
 		for len(b) < n {
 			b = append(b, byte((kk-1)*7+3))
+		}
+		for i := len(b) - 1; i > 0; i-- {
+			j := r.Intn(i + 1)
+			b[i], b[j] = b[j], b[i]
+		}
+		if d.P2 > 0 {
+			// variant: the data END in (about) P2 bytes of the rarest symbols, i.e. the
+			// longest codes of the block are the last ones before end-of-block
+			t, cum := 0, 0
+			for fa, fc := 1, 2; t < kk-1 && cum < d.P2; t++ {
+				cum += fa
+				fa, fc = fc, fa+fc
+			}
+			head, tail := make([]byte, 0, len(b)), []byte{}
+			for _, x := range b {
+				if x >= 3 && (int(x)-3)%7 == 0 && (int(x)-3)/7 < t {
+					tail = append(tail, x)
+				} else {
+					head = append(head, x)
+				}
+			}
+			b = append(head, tail...)
+		}
+	case "geo": // P1 symbols whose counts grow geometrically (ratio P2/10) in tie groups of 1..3 equal counts, shuffled:
+		// many shapes of skewed histograms for the code-length generator and its 15-bit limiter
+		k, ratio := d.P1, float64(d.P2)/10
+		if k < 2 {
+			k = 2
+		}
+		if k > 256 {
+			k = 256
+		}
+		if ratio < 1.05 {
+			ratio = 1.5
+		}
+		g := 1 + int(d.Seed%3)
+		perm := r.Bytes(256)
+		syms := make([]byte, 256)
+		for i := range syms {
+			syms[i] = byte(i)
+		}
+		for i := 255; i > 0; i-- {
+			j := int(perm[i]) % (i + 1)
+			syms[i], syms[j] = syms[j], syms[i]
+		}
+		cnt, sum := 1.0, 0
+		last := byte(0)
+		for j := 0; j < k && sum < n; j++ {
+			if j > 0 && j%g == 0 {
+				cnt *= ratio
+			}
+			c := int(cnt)
+			if c > n-sum {
+				c = n - sum
+			}
+			for i := 0; i < c; i++ {
+				b = append(b, syms[j])
+			}
+			sum += c
+			last = syms[j]
+		}
+		for len(b) < n {
+			b = append(b, last)
 		}
 		for i := len(b) - 1; i > 0; i-- {
 			j := r.Intn(i + 1)
@@ -198,10 +262,13 @@ func GenData(r *kern.Rng, maxLen int) DataSpec {
 		d.P1 = r.Pick(1, 2, 3, 100, 1000, 4095, 4096, 4097, 8192, 32767, 32768, 32769)
 	case "fib":
 		d.P1 = r.Pick(8, 16, 24, 30, 40)
+		d.P2 = r.Pick(0, 0, 3, 4, 7)
 	case "head_run":
 		d.P1 = r.Pick(300, 5000, 20000, 70000)
 	case "logcopies":
 		d.P1 = r.Pick(0, 1, 1)
+	case "geo":
+		d.P1, d.P2 = r.Pick(3, 8, 17, 20, 24, 32, 64, 256), r.Pick(11, 13, 15, 16, 20, 30)
 	}
 	d.Len = GenLen(r, maxLen)
 	if d.Kind == "head_run" && r.Pct(60) {
